@@ -8,6 +8,7 @@ state; the invariant is evaluated in every state, the step oracle (must-raise / 
 reference values) on every transition. Violating states are reported once and not expanded.
 """
 import hashlib
+import re
 import itertools
 
 import numpy as np
@@ -303,7 +304,7 @@ def step_oracle(obj, op, before_series, before_obs, exc, created, nonstrict_twin
         if strict and is_new:
             if not isinstance(exc, AttributeError) or not unchanged():
                 out.append(('strict:new-attribute-accepted', 'AttributeError', type(exc).__name__ if exc else 'accepted', 'strict=True must block new attributes'))
-            elif name.lower() in [v.lower() for v in index_before] and ("'%s'" % [v for v in index_before if v.lower() == name.lower()][0]) not in str(exc):
+            elif name.lower() in [v.lower() for v in index_before] and not re.search(r'(?<![A-Za-z0-9_])%s(?![A-Za-z0-9_])' % re.escape([v for v in index_before if v.lower() == name.lower()][0]), str(exc)):
                 out.append(('strict:no-suggestion', 'message names the closest variable', str(exc), 'near-miss not reported'))
         if not strict and exc is not None:
             out.append(('nonstrict:new-attribute-rejected', 'accepted', type(exc).__name__, 'non-strict object must accept new attributes'))
